@@ -40,7 +40,7 @@ type Engine struct {
 var repoPatterns = []string{
 	"./auth", "./backend", "./backend/posix", "./backend/meta", "./backend/s3proxy",
 	"./s3api", "./s3api/controllers", "./s3api/middlewares", "./s3api/utils",
-	"./s3event", "./s3err", "./s3response", "./metrics",
+	"./s3event", "./s3err", "./s3response", "./metrics", "./s3log",
 }
 
 func loadEngine(repo, specDir string) (*Engine, error) {
